@@ -11,7 +11,8 @@ UNITS = []
 UNITS.append(dict(
     name='C01.hdr.field', props=['C01', 'C10', 'C16'], kind='P', route='stub',
     tus=[dict(file=HDR, include_as='VERIF_TU'), dict(file=STR), dict(file=BASIC), dict(file=SIG)], harness='harness/c01h_field.c', extra_sources=[ASSERT],
-    replace_calls={'_dbus_header_cache_revalidate': 'verif_stub_cache_revalidate'},
+    replace_calls={'_dbus_header_cache_revalidate': 'verif_stub_cache_revalidate',
+                                     '_dbus_string_copy_len': 'verif_stub_string_copy_len'},
     unwindset=['_dbus_string_equal_substring.0:29'], cbmc_flags=['--unwinding-assertions'], timeout=900, expect_s=30,
     must_have=['field.type', 'field.twice', 'field.validator', 'field.local', 'field.verdict'],
     functions=[dict(name='load_and_validate_field', file=HDR, status='enforced',
@@ -65,7 +66,8 @@ def exact_unit(nm, n, assume, tier, reval=0, expect=120, note=''):
     defs = ['VERIF_N=%d' % n]
     if assume:
         defs.append('VERIF_HDR_ASSUME=%s' % assume)
-    UNITS.append(dict(name='C01.hdr.exact.%s' % nm, props=['C01', 'C10', 'C12'] if reval else ['C01', 'C10'], kind='B', route='stub', tus=EXACT_TUS, replace_calls={'_dbus_validate_body_with_reason': 'verif_stub_validate_body', '_dbus_header_cache_revalidate': 'verif_stub_cache_revalidate'},
+    UNITS.append(dict(name='C01.hdr.exact.%s' % nm, props=['C01', 'C10', 'C12'] if reval else ['C01', 'C10'], kind='B', route='stub', tus=EXACT_TUS, replace_calls={'_dbus_validate_body_with_reason': 'verif_stub_validate_body', '_dbus_header_cache_revalidate': 'verif_stub_cache_revalidate',
+                                     '_dbus_string_copy_len': 'verif_stub_string_copy_len'},
                       harness='harness/c01h_exact.c', extra_sources=[ASSERT, 'stubs/list_as_stack.c', 'stubs/c07_mem.c'], defines=defs,
                       unwind=n + 3, timeout=3000, tier=tier, expect_s=expect, trace_is_execution=True, replay_family='header', replay_fn='load',
                       bounds={'header_bytes': n, 'skeleton': note or 'none (every byte symbolic)', 'byte_order': 'both',
@@ -77,7 +79,7 @@ def exact_unit(nm, n, assume, tier, reval=0, expect=120, note=''):
                                  dict(name='_dbus_type_reader_* (values reader)', file=REC, status='bounded'),
                                  dict(name='_dbus_list_* in the signature validator', file='dbus/dbus-list.c', status='assumed', note='LIFO stack stub')],
                       assumptions=['dbus-list behaves as a LIFO stack of integers in the signature validator (stub, not verified)',
-                                   'the header string has capacity for the copy (no reallocation inside _dbus_string_copy_len)']))
+                                   '_dbus_string_copy_len copies the byte range (stub with a byte loop; the OOM branch of _dbus_header_load is covered by C01.hdr.load)']))
 
 
 # skeletons: byte order, total length, fields-array length and the variant signature bytes (length, type code, NUL) of each
@@ -86,13 +88,18 @@ def exact_unit(nm, n, assume, tier, reval=0, expect=120, note=''):
 # Symbolic: message type, flags, version, body length, serial, every field code, every value, string lengths and contents.
 def skel(le, n, fal, sigs):
     """sigs: list of (offset of the element, type code)"""
-    w = [fal & 255, (fal >> 8) & 255, 0, 0]
+    w = [(fal or 0) & 255, ((fal or 0) >> 8) & 255, 0, 0]
     if not le:
         w.reverse()
-    a = "in_len=%d;in_buf[0]='%s';" % (n, 'l' if le else 'B') + ''.join('in_buf[%d]=%d;' % (12 + i, w[i]) for i in range(4))
+    a = "in_len=%d;in_buf[0]='%s';" % (n, 'l' if le else 'B')
+    if fal is not None:
+        a += ''.join('in_buf[%d]=%d;' % (12 + i, w[i]) for i in range(4))
     for off, t in sigs:
         a += "in_buf[%d]=1;in_buf[%d]='%s';in_buf[%d]=0;" % (off + 1, off + 2, t, off + 3)
     return a
 
 
 exact_unit('u.le24', 24, skel(1, 24, 8, [(16, 'u')]), 'quick', note='little endian, 24 bytes, one field (code symbolic) with variant signature "u"')
+exact_unit('uu.le32', 32, skel(1, 32, 16, [(16, 'u'), (24, 'u')]), 'quick', note='little endian, 32 bytes, two fields (codes symbolic) with variant signature "u"')
+exact_unit('s.le32', 32, skel(1, 32, None, [(16, 's')]), 'quick', note='little endian, 32 bytes, one field (code symbolic) with variant signature "s", string length and fields-array length symbolic')
+
